@@ -1,7 +1,7 @@
 (* Property C15 — only authorised parties can perform privileged actions. Statements only; proofs in
    Proofs/AuthProofs.v. *)
 From MD.Model Require Import Base Ownable Epoch PoolMath Types PoolManager FarmManager Chain.
-From MD.Proofs Require Import ChainProofs PmProofs AuthProofs PositionsSafe OwnersOnly PositionsExample.
+From MD.Proofs Require Import ChainProofs PmProofs AuthProofs PositionsSafe OwnersOnly PositionsExample SwitchesSafe.
 
 (* On all four contracts, from any world and for any sender: a configuration change (feature toggles are part
    of the pool manager's UpdateConfig), an ownership transfer proposal or a renouncement is accepted only when
@@ -83,8 +83,7 @@ Proof. repeat split; discriminate. Qed.
    whatever the others do, with every call between the contracts, replies, rejected operations and injected faults.
    Epoch manager and fee collector: the whole state; pool manager: ownership record and configuration (fee collector,
    farm manager, pool creation fee); farm manager: ownership record and configuration. (The per-pool feature switches
-   live in the pools; that only the owner's UpdateConfig moves them is C15_privileged_requires_owner_and_no_funds and
-   C17_toggle_changes_only_the_named_flags, transaction by transaction.) *)
+   live in the pools: C15_switches_move_only_by_the_owner below.) *)
 Theorem C15_only_the_owner_changes_ownership_and_configuration : forall o ops w,
   o <> EM -> o <> FC -> o <> PM -> o <> FM ->
   Forall (not_signed_by o) ops ->
@@ -101,6 +100,24 @@ Proof. exact only_the_owner_changes_ownership_and_configuration. Qed.
 Theorem C15_owners_example : owners_statement.
 Proof. exact owners_example. Qed.
 
+(* OVER HISTORIES. While the pool manager's ownership is settled (owner o, a user address, no transfer pending), through
+   ANY history of operations that o does not sign - swaps, routes, deposits, withdrawals, pool creations, attempts at
+   privileged messages, calls between the contracts, replies, rejected operations, injected faults - every pool keeps
+   its three feature switches exactly as they are: what the owner disabled stays disabled, what is enabled stays enabled. *)
+Theorem C15_switches_move_only_by_the_owner : forall o ops w,
+  o <> EM -> o <> FC -> o <> PM -> o <> FM ->
+  Forall (not_signed_by o) ops ->
+  settled o (pm_own (w_pm w)) ->
+  forall id p, sfind p_id id (pm_pools (w_pm w)) = Some p ->
+    exists p', sfind p_id id (pm_pools (w_pm (run w ops))) = Some p' /\ p_id p' = p_id p /\ p_status p' = p_status p.
+Proof. exact switches_move_only_by_the_owner. Qed.
+
+(* the hypotheses are met by a real history (kernel-evaluated): the owner disabled swaps on pool "o.b"; the others then try
+   to switch them back on, to take over the pool manager and to trade on the pool (rejected), deposit into it and trade
+   elsewhere (accepted): swaps on "o.b" are still disabled, deposits still enabled *)
+Theorem C15_switches_example : switches_statement.
+Proof. exact switches_example. Qed.
+
 Print Assumptions C15_privileged_requires_owner_and_no_funds.
 Print Assumptions C15_rejected_changes_nothing.
 Print Assumptions C15_ownership_actions.
@@ -111,3 +128,5 @@ Print Assumptions C15_farm_manager_roles.
 Print Assumptions C15_nonvacuous.
 Print Assumptions C15_only_the_owner_changes_ownership_and_configuration.
 Print Assumptions C15_owners_example.
+Print Assumptions C15_switches_move_only_by_the_owner.
+Print Assumptions C15_switches_example.
